@@ -117,6 +117,9 @@ pub struct StreamCase {
     /// short description of the program shape (for distinct-case signatures)
     pub shape: String,
     pub source: String,
+    /// the generating program (for triage only; replay uses `bytes`)
+    #[serde(default)]
+    pub program: Option<serde_json::Value>,
 }
 
 pub const FIXTURE: &str = "/repo/crates/jxl-oxide-tests/tests/cms/cmyk_layers.jxl";
@@ -183,7 +186,7 @@ pub fn valid_stream(rng: &mut Rng, cfg: &GenConfig, fixture_one_in: u64, contain
             // JXL(12) ftyp(20) jxll(9) jxlc-to-EOF header at 41..49
             let structural = vec![12, 32, 41, 49, 51, bytes.len() / 2, bytes.len()];
             let headers = (12..60).collect();
-            return StreamCase { bytes, structural, headers, container: true, aux_after_codestream: false, brob_after_codestream: false, shape: "fixture".into(), source: "cmyk_layers.jxl".into() };
+            return StreamCase { bytes, structural, headers, container: true, aux_after_codestream: false, brob_after_codestream: false, shape: "fixture".into(), source: "cmyk_layers.jxl".into(), program: None };
         }
     }
     let prog = random_program(rng, cfg);
@@ -191,7 +194,7 @@ pub fn valid_stream(rng: &mut Rng, cfg: &GenConfig, fixture_one_in: u64, contain
     let (cs, map) = prog.encode().expect("encode");
     let cs_struct = map.structural_offsets();
     if rng.below(100) >= container_pct {
-        return StreamCase { bytes: cs, structural: cs_struct, headers: vec![], container: false, aux_after_codestream: false, brob_after_codestream: false, shape, source: "jxlgen".into() };
+        return StreamCase { bytes: cs, structural: cs_struct, headers: vec![], container: false, aux_after_codestream: false, brob_after_codestream: false, shape, source: "jxlgen".into(), program: serde_json::to_value(&prog).ok() };
     }
     let spec = random_container(rng, &cs, &cs_struct);
     let (bytes, bmap) = spec.encode(rng.next_u64());
@@ -243,5 +246,6 @@ pub fn valid_stream(rng: &mut Rng, cfg: &GenConfig, fixture_one_in: u64, contain
         aux_after_codestream: aux_after,
         shape: format!("{shape}-box{}", spec.boxes.len()),
         source: "jxlgen+container".into(),
+        program: serde_json::to_value(&prog).ok(),
     }
 }
